@@ -92,6 +92,16 @@ class BaseInstance:
     def pure_call(s, callee, args):
         return NotImplemented
 
+    def default_of(s, ty, like):
+        """Default::default() of a generic parameter of the instantiation: all-zero value shaped like `like`"""
+        def zero(v):
+            if isinstance(v, list):
+                return [zero(x) for x in v]
+            if isinstance(v, z3.ExprRef) and z3.is_bv(v):
+                return bv(0, v.size())
+            raise Unsupported(f'default of {ty}')
+        return zero(like)
+
     def drop(s, eng, st, fr, place):
         return None
 
@@ -136,15 +146,16 @@ class BaseInstance:
                 eng.ret_value(st2, st2.frames[-1], stmt, ['enum', bv(0, 64), []])
             lt = b_ult(start, end)
             return eng.fork(st, [(lt, some), (b_not(lt), none)])
-        if c == '<Vec<u32> as Extend<u32>>::extend::<Rev<std::ops::Range<u32>>>':
+        if c in ('<Vec<u32> as Extend<u32>>::extend::<Rev<std::ops::Range<u32>>>', '<Vec<u32> as Extend<u32>>::extend::<std::ops::Range<u32>>'):
             vec = eng.read(st, args[0])
             it = args[1]
-            start, end = it[1]
+            rev = isinstance(it[0], str) and it[0] == 'rev'
+            start, end = it[1] if rev else it
             a, b, n = eng.concretize(start), eng.concretize(end), eng.concretize(vec.len)
             if a is None or b is None or n is None:
                 raise Unsupported('extend with symbolic range')
             cells = list(vec.cells)
-            vals = [bv(x, 32) for x in range(b - 1, a - 1, -1)]
+            vals = [bv(x, 32) for x in (range(b - 1, a - 1, -1) if rev else range(a, b))]
             for i, x in enumerate(vals):
                 if n + i < len(cells):
                     cells[n + i] = x
@@ -177,8 +188,11 @@ class BaseInstance:
             eng.write(st, args[0], b)
             eng.write(st, args[1], a)
             return R(UNIT)
-        if re.match(r'^(std|core)::mem::take::<.*>$', c):
-            raise Unsupported('mem::take (needs the Default of the value type)')
+        m = re.match(r'^(std|core)::mem::take::<(.*)>$', c)
+        if m:
+            old = eng.read(st, args[0])
+            eng.write(st, args[0], s.default_of(m.group(2), old))
+            return R(old)
         m = re.match(r'^<(u8|u16|u32|u64|usize) as Ord>::(max|min)$', c)
         if m and c != '<usize as Ord>::max':
             a, b = args
